@@ -235,6 +235,98 @@ class NPModel:
             a = self._it.concretize_mask(a)
         return np.nonzero(a)
 
+    def _ew2(self, f, a, b):
+        if isinstance(a, np.ndarray) or isinstance(b, np.ndarray):
+            return vec2(f, a, b)
+        return f(a, b)
+
+    def minimum(self, a, b):
+        """np.minimum: element-wise, NaN propagates"""
+        def f(x, y):
+            if not (is_sym(x) or is_sym(y)):
+                return float(np.minimum(x, y)) if isinstance(x, float) or isinstance(y, float) else min(x, y)
+            x, y = Num.lift(x), Num.lift(y)
+            r = ite(y < x, y, x)
+            r = ite(isnan(y), y, r)
+            return ite(isnan(x), x, r)
+        return self._ew2(f, a, b)
+
+    def maximum(self, a, b):
+        def f(x, y):
+            if not (is_sym(x) or is_sym(y)):
+                return float(np.maximum(x, y)) if isinstance(x, float) or isinstance(y, float) else max(x, y)
+            x, y = Num.lift(x), Num.lift(y)
+            r = ite(y > x, y, x)
+            r = ite(isnan(y), y, r)
+            return ite(isnan(x), x, r)
+        return self._ew2(f, a, b)
+
+    def fmin(self, a, b):
+        """np.fmin: NaN is ignored unless both are NaN"""
+        def f(x, y):
+            if not (is_sym(x) or is_sym(y)):
+                return float(np.fmin(x, y))
+            x, y = Num.lift(x), Num.lift(y)
+            r = ite(y < x, y, x)
+            r = ite(isnan(x), y, r)
+            return ite(And(isnan(y), Not(isnan(x))), x, r)
+        return self._ew2(f, a, b)
+
+    def fmax(self, a, b):
+        def f(x, y):
+            if not (is_sym(x) or is_sym(y)):
+                return float(np.fmax(x, y))
+            x, y = Num.lift(x), Num.lift(y)
+            r = ite(y > x, y, x)
+            r = ite(isnan(x), y, r)
+            return ite(And(isnan(y), Not(isnan(x))), x, r)
+        return self._ew2(f, a, b)
+
+    def where(self, c, a=None, b=None):
+        if a is None:
+            return self.nonzero(c)
+        if not has_sym(c) and not has_sym(a) and not has_sym(b):
+            return np.where(c, a, b)
+        ca = c if isinstance(c, np.ndarray) else np.asarray(c, dtype=object)
+        aa = a if isinstance(a, np.ndarray) else np.asarray(a, dtype=object)
+        bb = b if isinstance(b, np.ndarray) else np.asarray(b, dtype=object)
+        ca, aa, bb = np.broadcast_arrays(ca, aa, bb)
+        out = np.empty(ca.shape, dtype=object)
+        for i in np.ndindex(ca.shape):
+            x, y = aa[i], bb[i]
+            x = x.item() if isinstance(x, np.generic) else x
+            y = y.item() if isinstance(y, np.generic) else y
+            cc = ca[i]
+            out[i] = ite(cc, x, y) if isinstance(cc, SBool) else (x if cc else y)
+        return out
+
+    def isinf(self, x):
+        if isinstance(x, np.ndarray):
+            return vec1(self.isinf, x) if x.dtype == object else np.isinf(x)
+        if isinstance(x, Num):
+            return And(Not(isnan(x)), Not(isfinite(x)))
+        return bool(np.isinf(x))
+
+    def logical_and(self, a, b): return self._ew2(lambda x, y: And(x, y), a, b)
+    def logical_or(self, a, b): return self._ew2(lambda x, y: Or(x, y), a, b)
+
+    def logical_not(self, a):
+        return vec1(Not, a) if isinstance(a, np.ndarray) else Not(a)
+
+    def sum(self, a, axis=None):
+        if axis is not None:
+            raise Unsupported("np.sum with axis")
+        a = np.asarray(a, dtype=object) if not isinstance(a, np.ndarray) else a
+        if a.dtype != object:
+            return a.sum()
+        r = 0
+        for x in a.ravel():
+            r = self._it.binop(ast.Add, r, ite(x, 1, 0) if isinstance(x, (SBool, bool, np.bool_)) else x)
+        return r
+
+    def count_nonzero(self, a):
+        return self.sum(vec1(lambda x: ite(x, 1, 0) if isinstance(x, SBool) else int(bool(x)), np.asarray(a, dtype=object)))
+
     def isscalar(self, x):
         return isinstance(x, (Num, SInt, SBool)) or np.isscalar(x)
 
@@ -1022,8 +1114,12 @@ class Interp:
         dt = e[1] if (e is not None and e[0] is base) else None
         if dt is None:
             return v
-        if dt.kind == 'u' and dt.itemsize == 1 and isinstance(v, SInt):
-            return v & 0xFF
+        if dt.kind in 'iu' and dt.itemsize < 8 and isinstance(v, SInt):
+            bits = 8 * dt.itemsize
+            low = z3.Extract(bits - 1, 0, v.t)
+            return SInt(z3.simplify(z3.ZeroExt(SInt.W - bits, low) if dt.kind == 'u' else z3.SignExt(SInt.W - bits, low)))
+        if dt.kind in 'iu' and dt.itemsize < 8 and isinstance(v, (int, np.integer)) and not isinstance(v, bool):
+            return int(np.array(int(v) & ((1 << 64) - 1), dtype=np.uint64).astype(dt))
         if dt.kind in 'iu' and isinstance(v, Num):
             if self.tags and any(v is t for t in self.tags.values()):
                 return v            # a coordinate symbol of an integer-typed geometry array: already an integer
